@@ -199,7 +199,68 @@ func runC04(c *Ctx) {
 				}
 			}
 		}
+		// ... on every path on which the store handed its locator out: behind
+		// the success edge of LatestBlockLocator no way leads to the request
+		// that does not put that locator in (the request's locator IS the
+		// result, or an append of the result that reaches the request's
+		// argument lies on the way); a test of anything else - "only when its
+		// first hash differs from the one we lead with" - makes the request go
+		// out with our own tip alone in exactly the case the backup is for
+		for _, f := range c.P.Funcs {
+			if outermost(f) == c.fn(fnHandleHeaders) {
+				continue
+			}
+			pushes := find(f, callTo(push))
+			if len(pushes) == 0 {
+				continue
+			}
+			locs := find(f, callTo(loc))
+			fromLoc := func(v ssa.Value) bool {
+				// without passing a merge
+				for i := 0; i < 6; i++ {
+					v = ir.Strip(v)
+					if e, ok := v.(*ssa.Extract); ok {
+						v = e.Tuple
+						continue
+					}
+					break
+				}
+				return valIsCallTo(loc)(v)
+			}
+			for _, x := range pushes {
+				arg := argsOf(x)[0]
+				includes := func(in ssa.Instruction) bool {
+					if in == x {
+						return fromLoc(arg)
+					}
+					call, ok := in.(*ssa.Call)
+					if !ok || !isBuiltin("append")(call) || len(call.Call.Args) != 2 {
+						return false
+					}
+					return ir.DerivesFrom(call.Call.Args[1], valIsCallTo(loc)) && ir.DerivesFrom(arg, func(v ssa.Value) bool { return v == ssa.Value(call) })
+				}
+				isX := func(in ssa.Instruction) bool { return in == x && !fromLoc(arg) }
+				g := errNil("BlockHeaders.LatestBlockLocator()", locs, 1)
+				for _, st := range c.successEdges(g) {
+					reached := false
+					ir.WalkCtx(st.b, st.idx, st.pred, nil, func(in ssa.Instruction) bool {
+						if includes(in) {
+							return false
+						}
+						if isX(in) {
+							reached = true
+							return false
+						}
+						return true
+					})
+					if reached {
+						bad = append(bad, c.nm(f)+" at "+c.at(x)+" (a path from the successful LatestBlockLocator call reaches the request without adding its result)")
+					}
+				}
+			}
+		}
 		sort.Strings(bad)
+		bad = uniq(bad)
 		c.verdict(len(bad) == 0 && n >= 3, "blockManager | getheaders locators include the stored chain's locator", "-", fmt.Sprintf("%d request site(s), all derive their locator from BlockHeaders.LatestBlockLocator()", n), fmt.Sprintf("getheaders sent with a locator that does not include the stored chain's locator at %s (%d site(s) found, 3 tabled): after the peer reorganises away from our tip it answers from genesis and the client never learns the new branch", join(bad), n), sites...)
 	})
 
